@@ -425,6 +425,11 @@ def check_C07(chk):
         for cnt in (1, 2, 3):
             for pwl in (5, 64, 65, 100):
                 lines.append(f"pbkdf2 id=tp{cnt}-{pwl} len=40 count={cnt} pw={datav(r, pwl, 'rz'[cnt % 2])} salt={datav(r, 8)}")
+        # inputs of equal length (a comparison between two inputs is the kind of thing that only happens then)
+        for n in (8, 16, 33):
+            lines.append(f"pbkdf2 id=tpe{n} len=33 count=2 pw={datav(r, n)} salt={datav(r, n)}")
+            lines.append(f"hmac id=tme{n} k={datav(r, n)} m={datav(r, n)}")
+            lines.append(f"hkdf id=tke{n} len=40 key={datav(r, n)} salt={datav(r, n)} info={datav(r, n)}")
         # incremental interfaces: hash, HMAC (short and > 64-byte keys), HKDF
         for o, (kl, m1, m2) in enumerate([(5, 3, 20), (64, 16, 1), (100, 17, 33), (0, 0, 40)]):
             ks = datav(r, kl) if kl else '-'
@@ -439,6 +444,10 @@ def check_C07(chk):
                       f"hmfinal id=ti{o}g obj={o} k={ks}", f"hmfree id=ti{o}h obj={o}",
                       f"hkextract id=ti{o}i obj={o} key={datav(r, 10 + kl)} salt={ks}", f"hkexpand id=ti{o}j obj={o} info=01 len={m1 + 30}",
                       f"hkexpand id=ti{o}k obj={o} info=01 len={m2 + 40}", f"hkfree id=ti{o}l obj={o}"]
+            if o == 1:
+                # all 255 blocks, then a refused request, then another one
+                lines += [f"hkextract id=tx{o}i obj={o} key={datav(r, 24)} salt={datav(r, 5)}", f"hkexpand id=tx{o}j obj={o} info=02 len=8160",
+                          f"hkexpand id=tx{o}k obj={o} info=02 len=1", f"hkexpand id=tx{o}m obj={o} info=02 len=40", f"hkfree id=tx{o}l obj={o}"]
         # PRNG: entropy and state are secret; cross the reseed limit (automatic reseed) and reseed explicitly
         for pi, dels in enumerate([['full'] * 6, ['full', 'short', 'full', 'none', 'full', 'full'], ['short', 'full', 'short', 'full', 'full', 'full'],
                                    ['none', 'short', 'full', 'full', 'full', 'full']]):
